@@ -16,6 +16,7 @@ import (
 	"github.com/icon-project/goloop/module"
 	"github.com/icon-project/goloop/service/txresult"
 	"verif/harness/hxlib"
+	"verif/harness/hxpack"
 )
 
 // ---------- replayable description of a case ----------
@@ -169,9 +170,9 @@ func coqShape(s *shapeIn) string {
 
 func coqItem(it itemIn) string {
 	if it.Addr != nil {
-		return "(QAddr " + hxlib.CoqBytes(unhex(*it.Addr)) + ")"
+		return "(QAddr " + hxpack.Bytes(unhex(*it.Addr)) + ")"
 	}
-	return fmt.Sprintf("(QIdx %d %s)", it.Pos, hxlib.CoqBytes(unhex(*it.V)))
+	return fmt.Sprintf("(QIdx %d %s)", it.Pos, hxpack.Bytes(unhex(*it.V)))
 }
 
 func coqLog(l logIn) string {
@@ -180,10 +181,10 @@ func coqLog(l logIn) string {
 		if p == nil {
 			xs = append(xs, "None")
 		} else {
-			xs = append(xs, "(Some "+hxlib.CoqBytes(unhex(*p))+")")
+			xs = append(xs, "(Some "+hxpack.Bytes(unhex(*p))+")")
 		}
 	}
-	return "(" + hxlib.CoqBytes(unhex(l.Addr)) + ", " + hxlib.CoqList(xs) + ")"
+	return "(" + hxpack.Bytes(unhex(l.Addr)) + ", " + hxlib.CoqList(xs) + ")"
 }
 
 // ---------- run one case: observations + direct oracle ----------
@@ -275,7 +276,7 @@ func runCase(in caseIn, wantCoq bool) (coq string, oracle string, nontrivial boo
 		}
 		seen[string(p)] = true
 		d := sha3.Sum256(p)
-		tbl = append(tbl, "("+hxlib.CoqBytes(p)+", "+hxlib.CoqBytes(d[:])+")")
+		tbl = append(tbl, "("+hxpack.Bytes(p)+", "+hxpack.Bytes(d[:])+")")
 	}
 	for _, l := range in.Logs {
 		for _, it := range itemsOfLog(l) {
@@ -299,7 +300,7 @@ func runCase(in caseIn, wantCoq bool) (coq string, oracle string, nontrivial boo
 		qs = append(qs, fmt.Sprintf("(%s, %s, %s)", hxlib.CoqList(its), hxlib.CoqBool(obs[k].c1), hxlib.CoqBool(obs[k].c2)))
 	}
 	coq = fmt.Sprintf("(CBloom %s %s %s %s %s %s %s)", hxlib.CoqList(tbl), hxlib.CoqList(logs), coqShape(&in.Shape),
-		hxlib.CoqBytes(root.LogBytes()), hxlib.CoqBytes(root.Bytes()), hxlib.CoqBytes(rt.LogBytes()), hxlib.CoqList(qs))
+		hxpack.Bytes(root.LogBytes()), hxpack.Bytes(root.Bytes()), hxpack.Bytes(rt.LogBytes()), hxlib.CoqList(qs))
 	return coq, oracle, nontrivial
 }
 
@@ -476,9 +477,9 @@ func genCase(r *rand.Rand) caseIn {
 }
 
 // a dense case: many logs so that absent items start to collide with set bits
-func genDense(r *rand.Rand) caseIn {
+func genDense(r *rand.Rand, lo, span int) caseIn {
 	var in caseIn
-	n := 40 + r.Intn(60)
+	n := lo + r.Intn(span)
 	var idx []int
 	for i := 0; i < n; i++ {
 		a := make([]byte, 21)
@@ -525,17 +526,19 @@ func gen(c *hxlib.Ctx) {
 		emit(kind, in)
 	}
 	for i := 0; i < c.N(12); i++ {
-		emit("dense", genDense(r))
+		emit("dense", genDense(r, 40, 60))
+	}
+	for i := 0; i < c.N(30); i++ {
+		emit("medium", genDense(r, 8, 16))
 	}
 	// canary: a present item observed as absent — the model must disagree
 	{
-		in := genCase(c.Sub("canary", 0))
+		a := hex.EncodeToString(append([]byte{1}, bytes.Repeat([]byte{7}, 20)...))
+		in := caseIn{Logs: []logIn{{Addr: a, Indexed: []*string{hx([]byte("E()")), hx([]byte{1})}}},
+			Shape: shapeIn{Leaf: []int{0}}, Shape2: shapeIn{Leaf: []int{0}},
+			Queries: []queryIn{{Items: []itemIn{{Pos: 1, V: hx([]byte{1})}}, Present: true}}}
 		coq, _, _ := runCase(in, true)
-		// flip the first recorded observation of a present query
 		bad := strings.Replace(coq, ", true, true)", ", false, true)", 1)
-		if bad == coq {
-			bad = strings.Replace(coq, "(CBloom ", "(CBloom [] ", 1) // never happens: would not even type-check
-		}
 		c.Emit(hxlib.Case{Kind: "canary", Canary: true, Coq: bad})
 	}
 }
@@ -552,12 +555,13 @@ func replay(raw json.RawMessage) string {
 func main() {
 	hxlib.Main(hxlib.Spec{
 		ID: "C26",
-		Rule: "random sets of 1-6 event logs (shared/sparse/random addresses; signature + 0-3 indexed values, some nil, some shared between logs; occasionally a log without indexed values) plus dense sets of 40-100 logs; " +
+		Rule: "random sets of 1-6 event logs (shared/sparse/random addresses; signature + 0-3 indexed values, some nil, some shared between logs; occasionally a log without indexed values) plus medium (8-23 logs) and dense (40-100 logs) sets probed with 30 absent items each; " +
 			"logs are accumulated with AddLog into receipt blooms and merged with Merge in a random tree shape (or the left fold of service/transition.go), some operands handed over as a foreign module.LogsBloom; " +
 			"a second random grouping/order (with repetitions) of the same logs must give the same bloom; the bloom is sent through CompressedBytes -> NewLogsBloomFromCompressed; " +
 			"queries: single items and multi-item filters of added logs (must be contained), absent items, present values at other positions, position 255; " +
 			"observed: LogBytes, Bytes, LogBytes after the compression round trip, Contain before and after; non-trivial = at least two logs that add items and at least one Merge; distinct = distinct Coq case term",
-		Shard: 130,
+		Shard:    130,
+		Preamble: "From Coq Require Import Uint63.\nFrom GoloopRun Require Import Run_Pack63 Run_C26.",
 		Gen:   gen, Replay: replay,
 	})
 }
